@@ -441,5 +441,12 @@ def search(rng, budget):
     for _ in range(budget):
         yield from gen_cases(rng, 'quick')
 
-LEVEL_TEXT = ''
-LEVEL_NOTE = ''
+LEVEL_TEXT = ('Theorems for all inputs of the documented forms (any whitespace runs, any words, any number of alternatives / items by '
+              'induction, all four bracket combinations): the token list of the grammar (operator + word with "longer operators win" as a '
+              'decided property of the generated literal order; <or>, <all-in>, <range-in>; bare word), the result of match against the '
+              'documented meaning for each of the 17 operators incl. exceptions, first-word equality without an operator (O5 explicit), '
+              'totality of the dispatch for every spec (no KeyError/IndexError/arity error), tab expansion unobservable. Literals, orders, '
+              'regex class, parse action, operator table and the _range_in tables are regenerated from the source on every run.')
+LEVEL_NOTE = ('Trusted: Coq kernel; translator gen_C18.py; pyparsing modelled as a recursive-descent parser (tied by correspondence on token '
+              'lists); CPython float()/comparisons as Base/PyFloat.v; ast.literal_eval arbitrary in the theorems (fragment model tied by '
+              'correspondence). Closed under the global context (no axioms).')
